@@ -42,7 +42,7 @@ def cases(draw):
     inbound = draw(st.lists(st.sampled_from(["dwr", "app"]), max_size=3))
     sched = draw(conc.schedules(300))
     return {"role": draw(st.sampled_from(["client", "server"])), "subs": subs, "pw": pw, "sizes": sizes, "inbound": inbound,
-            "sched": sched, "lines": draw(st.booleans()) if sched else False}
+            "sched": sched, "lines": draw(st.booleans()) if sched else False, "holds": draw(conc.holds())}
 
 
 def build_msgs(case):
@@ -88,6 +88,7 @@ def run_one(case):
             sock.write_sizes.extend(case["sizes"])
         w.sched.choices = list(case["sched"])
         w.sched.choice_i = 0
+        conc.apply_holds(w, case.get("holds"))
         done = []
 
         def submitter(si):
@@ -197,6 +198,8 @@ def _collect(shard, seed, n):
             f.add("prefix-with-switch")
         if info.get("line_switches"):
             f.add("preempted-at-source-line")
+        if case.get("holds"):
+            f.add("targeted-delay")
         if any(m["size"] >= 90000 for s in case["subs"] for m in s["msgs"]):
             f.add("crosses-send-buffer-limit")
         nt = (len(case["subs"]) >= 2 or "partial-write-happened" in f or "inbound-traffic" in f) and "prefix-with-switch" in f
@@ -209,7 +212,7 @@ def _collect(shard, seed, n):
 
 
 def main(ctx):
-    col = common.run_shards(_collect, 8 if ctx.quick else 16, ctx.seed, n=40 if ctx.quick else 1500)
+    col = common.run_shards(_collect, 8 if ctx.quick else 16, ctx.seed, n=80 if ctx.quick else 2500)
     for path, rec in common.load_replays(PID):
         col.record(rec["case"], run_case(rec["case"]), nontrivial=True, classes=["replay"])
     ctx.required_classes = ["partial-write-happened", "inbound-traffic", "prefix-with-switch", "preempted-at-source-line", "submitters=2",
